@@ -159,6 +159,36 @@ func (t *Table) ApplyIndexChange(change *types.GlobalSecondaryIndexUpdate) error
 	return nil
 }
 
+// ApplyIndexChanges sets the attribute definitions and applies the index changes of an
+// UpdateTable request as a whole: if one of the changes fails the table keeps the attribute
+// definitions and indexes it had before the call
+func (t *Table) ApplyIndexChanges(attrs []*types.AttributeDefinition, changes []*types.GlobalSecondaryIndexUpdate) error {
+	savedAttrs := map[string]string{}
+	for k, v := range t.AttributesDef {
+		savedAttrs[k] = v
+	}
+
+	savedIndexes := map[string]*index{}
+	for k, v := range t.Indexes {
+		savedIndexes[k] = v
+	}
+
+	if attrs != nil {
+		t.SetAttributeDefinition(attrs)
+	}
+
+	for _, change := range changes {
+		if err := t.ApplyIndexChange(change); err != nil {
+			t.AttributesDef = savedAttrs
+			t.Indexes = savedIndexes
+
+			return err
+		}
+	}
+
+	return nil
+}
+
 // AddGlobalIndexes adds global indexes to a table
 func (t *Table) AddGlobalIndexes(input []*types.GlobalSecondaryIndex) error {
 	if input != nil && len(input) == 0 {
